@@ -212,9 +212,12 @@ def list_to_grid(ls):
     grid = {}
     # enter every operation in the list to its proper position in the grid
     for cmd in ls:
-        for r in cmd.get_dependencies():
-            # Add cmd to the grid to the end of the line r.ind.
-            grid.setdefault(r.ind, []).append(cmd)
+        # A command depending on a subsystem both as a register and through a measured parameter
+        # may hold two RegRef objects for it that no longer compare equal (the hash of a RegRef
+        # changes when the subsystem is deleted), so collect the wire indices, not the RegRefs.
+        for ind in sorted({r.ind for r in cmd.get_dependencies()}):
+            # Add cmd to the grid to the end of the line ind.
+            grid.setdefault(ind, []).append(cmd)
     return grid
 
 
